@@ -47,14 +47,32 @@ def run(ck):
         triple = cases(ck, "Wire_triple.cfg", "triples over the reduced shape set x chunking")
         total += len(triple)
         rnd.shuffle(triple)
-        triple = triple[:60000]
+        triple = triple[:30000]
     allc = single + pair + triple
-    tr = os.path.join(ck.tmp, "c14.ndjson")
-    o2 = os.path.join(ck.tmp, "c14_out.json")
-    ck.run_driver("./c14", "^TestWire$", {"VERIF_IN": ck.write_lines("c14_in.ndjson", allc), "VERIF_OUT": tr, "VERIF_OUT2": o2}, timeout=3400)
-    res = ck.read_result(o2)
+    # the driver is single-threaded (byte-wise delivery of 64 KiB frames is slow): run it on shards side by side
+    from concurrent.futures import ThreadPoolExecutor
+    nsh = 4 if q else 12
+    rnd.shuffle(allc)
+    shards = [allc[i::nsh] for i in range(nsh)]
+
+    def one(i):
+        tri = os.path.join(ck.tmp, "c14_%d.ndjson" % i)
+        o2i = os.path.join(ck.tmp, "c14_out_%d.json" % i)
+        ck.run_driver("./c14", "^TestWire$", {"VERIF_IN": ck.write_lines("c14_in_%d.ndjson" % i, shards[i]), "VERIF_OUT": tri, "VERIF_OUT2": o2i}, timeout=3400)
+        return tri, ck.read_result(o2i)
+    with ThreadPoolExecutor(max_workers=nsh) as ex:
+        parts = list(ex.map(one, range(nsh)))
+    res = {"cases": sum(p[1]["cases"] for p in parts), "messages": sum(p[1]["messages"] for p in parts)}
     if res["cases"] != len(allc):
         raise Infra("driver consumed %d of %d cases" % (res["cases"], len(allc)))
+    # one trace: case numbers are per shard, so the shard index is folded into t
+    tr = os.path.join(ck.tmp, "c14.ndjson")
+    with open(tr, "w") as out:
+        for i, (tri, _) in enumerate(parts):
+            for ln in open(tri):
+                e = json.loads(ln)
+                e["t"] = e["t"] * nsh + i
+                out.write(json.dumps(e) + "\n")
     fr = ck.tlc("rtspwire", "WireFaults", "WireFaults.cfg", timeout=900, label="fault cases")
     ck.model(fr)
     faults = fr.printed("@X")
@@ -100,7 +118,7 @@ def run(ck):
 
 
 META = {
-    "text": "WireCases.tla: 3.2k single-message cases (every request / response / frame shape x 6 chunkings), 7.3k pairs and 257k triples over a reduced shape set (quick: all singles, 2500 pairs, 1500 sampled triples; thorough: all pairs, 60k triples). WireFaults.tla: 510 fault cases expanding to 8k runs (truncation at every offset behind a complete message, 9 replacement bytes at every offset of the head, endless first / header / status line, 12 Content-Length texts x request / response, 400 garbage seeds in four flavours, short RTP frames). All through the real dispatcher of service/rtsp (exported under the verif tag) on a chunking reader that knows how many bytes were consumed; TLC validates against RtspWire.tla: kind, request line, status line, header fields, body, channel and payload equal, reader positioned exactly at the next message after each one, every message yielded and only EOF at the end; damaged input never panics or hangs, a truncated message is not yielded, an endless line is refused within 70 KB, an absurd Content-Length is refused without allocating it, a refused frame leaves the stream positioned.",
+    "text": "WireCases.tla: 3.2k single-message cases (every request / response / frame shape x 6 chunkings), 7.3k pairs and 257k triples over a reduced shape set (quick: all singles, 2500 pairs, 1500 sampled triples; thorough: all pairs, 30k triples). WireFaults.tla: 510 fault cases expanding to 8k runs (truncation at every offset behind a complete message, 9 replacement bytes at every offset of the head, endless first / header / status line, 12 Content-Length texts x request / response, 400 garbage seeds in four flavours, short RTP frames). All through the real dispatcher of service/rtsp (exported under the verif tag) on a chunking reader that knows how many bytes were consumed; TLC validates against RtspWire.tla: kind, request line, status line, header fields, body, channel and payload equal, reader positioned exactly at the next message after each one, every message yielded and only EOF at the end; damaged input never panics or hangs, a truncated message is not yielded, an endless line is refused within 70 KB, an absurd Content-Length is refused without allocating it, a refused frame leaves the stream positioned.",
     "note": "Trusted: TLC, RtspWire.tla, the independent serialiser and the chunking reader in harness/c14. Four genuine defects were repaired (line limit, Content-Length bound, truncated body, see KNOWN_FINDINGS.json).",
     "technique": "TLA+ enumeration of the message-sequence / chunking / fault space; real dispatcher driven on a position-tracking reader; TLC trace validation against a TLA+ acceptor",
     "specs": ["rtspwire"],
